@@ -37,107 +37,140 @@ def parse_xml(text):
     return root
 
 
+def is_report_without_testcases(f):
+    """what the code leaves behind for a group none of whose tests was started (not judged: the property speaks about the groups that have tests in the run)"""
+    try:
+        tree = parse_xml(f['content'])
+    except xml.parsers.expat.ExpatError:
+        return False
+    return len(tree) == 1 and tree[0]['name'] == 'testsuite' and not [n for n in tree[0]['children'] if n['name'] == 'testcase']
+
+
 def judge_junit(rec, counters):
     out = []
     obs = rec['obs']
     truth = obs['truth']
     pkg = truth['package']
-    groups = truth['groups']
     files = obs['files']
     rep = truth['repeat']
-    if len(files) != len(groups) * rep:
-        out.append(V(rec, 'junit:file-count', 'expected %d files (one per group per repetition), captured %d: %r' % (len(groups) * rep, len(files), [f['name'] for f in files]), truth))
-        return out
-    printed_all = obs.get('printed', [])
-    # text printed (raw strings passed to print) — only known exactly in mode 0
+    filtered = bool(truth.get('filtered'))
+    # the run as the output object gets to see it: per repetition, per group, the tests the filters select (run order)
+    plan = []
     for r in range(rep):
-        for gi, g in enumerate(groups):
-            f = files[r * len(groups) + gi]
-            counters['junit_files_parsed'] = counters.get('junit_files_parsed', 0) + 1
-            want_name = 'cpputest_' + (pkg + '_' if pkg else '') + g['name']
-            want_name = ''.join('_' if ch in FORBIDDEN else ch for ch in want_name) + '.xml'
-            if f['name'] != want_name:
-                out.append(V(rec, 'junit:file-name', 'file name %r, expected %r' % (f['name'], want_name), truth))
-            if f['closes'] != 1 or f['writes_after_close']:
-                out.append(V(rec, 'junit:file-not-closed-once', 'closes=%d writes_after_close=%d' % (f['closes'], f['writes_after_close']), truth))
-            try:
-                tree = parse_xml(f['content'])
-            except xml.parsers.expat.ExpatError as e:
-                out.append(V(rec, 'junit:not-well-formed', '%s in file %r: %r' % (e, f['name'], f['content'][:600]), truth))
-                continue
-            if len(tree) != 1 or tree[0]['name'] != 'testsuite':
-                out.append(V(rec, 'junit:no-single-testsuite', repr([n['name'] for n in tree]), truth))
-                continue
-            suite = tree[0]
-            a = suite['attrs']
-            ntests = len(g['tests'])
-            nfailed = sum(1 for t in g['tests'] if t['failures'])
-            if a.get('name') != g['name']:
-                out.append(V(rec, 'junit:suite-name', 'suite name %r, group %r' % (a.get('name'), g['name']), truth))
-            if a.get('tests') != str(ntests):
-                out.append(V(rec, 'junit:suite-tests-count', 'tests=%r, true %d' % (a.get('tests'), ntests), truth))
-            if a.get('failures') != str(nfailed):
-                out.append(V(rec, 'junit:suite-failures-count', 'failures=%r, true number of failed tests %d' % (a.get('failures'), nfailed), truth))
-            cases = [n for n in suite['children'] if n['name'] == 'testcase']
-            if len(cases) != ntests:
-                out.append(V(rec, 'junit:testcase-count', '%d testcase elements for %d tests' % (len(cases), ntests), truth))
-                continue
-            for t, cnode in zip(g['tests'], cases):
-                ca = cnode['attrs']
-                counters['junit_testcases_checked'] = counters.get('junit_testcases_checked', 0) + 1
-                if ca.get('name') != t['name']:
-                    out.append(V(rec, 'junit:testcase-name', 'name %r, test %r' % (ca.get('name'), t['name']), truth))
-                if ca.get('file') != t['file']:
-                    out.append(V(rec, 'junit:testcase-file', 'file %r, true %r' % (ca.get('file'), t['file']), truth))
-                if ca.get('line') != str(t['line']):
-                    out.append(V(rec, 'junit:testcase-line', 'line %r, true %r' % (ca.get('line'), t['line']), truth))
-                want_class = (pkg + '.' if pkg else '') + g['name']
-                if ca.get('classname') != want_class:
-                    out.append(V(rec, 'junit:testcase-classname', 'classname %r, expected %r' % (ca.get('classname'), want_class), truth))
-                skipped = [n for n in cnode['children'] if n['name'] == 'skipped']
-                failure = [n for n in cnode['children'] if n['name'] == 'failure']
-                if bool(skipped) != bool(t['ignored']):
-                    out.append(V(rec, 'junit:skipped-marker', 'skipped marker %s for a test that is %s' % ('present' if skipped else 'absent', 'ignored' if t['ignored'] else 'not ignored'), truth))
-                if bool(failure) != bool(t['failures']) or len(failure) > 1:
-                    out.append(V(rec, 'junit:failure-element', '%d failure elements for a test with %d failures' % (len(failure), len(t['failures'])), truth))
-                elif failure:
-                    msg = failure[0]['attrs'].get('message')
+        for g in truth['groups']:
+            plan.append((r, g, [t for t in g['tests'] if t.get('selected', True)]))
+    if not filtered:
+        if len(files) != len(plan):
+            out.append(V(rec, 'junit:file-count', 'expected %d files (one per group per repetition), captured %d: %r' % (len(plan), len(files), [f['name'] for f in files]), truth))
+            return out
+    else:
+        counters['junit_filtered_runs'] = counters.get('junit_filtered_runs', 0) + 1
+    printed_all = obs.get('printed', [])
+    # text printed (raw strings passed to print) - only known exactly in mode 0
+    texts_so_far = []
+    fi = 0
+    for r, g, sel in plan:
+        if filtered and not sel:
+            # wholly filtered-out group: whether it leaves a report (without test cases) behind is not judged
+            counters['junit_groups_wholly_filtered_out_not_judged'] = counters.get('junit_groups_wholly_filtered_out_not_judged', 0) + 1
+            if fi < len(files) and is_report_without_testcases(files[fi]):
+                fi += 1
+            continue
+        want_name = 'cpputest_' + (pkg + '_' if pkg else '') + g['name']
+        want_name = ''.join('_' if ch in FORBIDDEN else ch for ch in want_name) + '.xml'
+        if filtered:
+            # every group with at least one selected test produces one file, in run order
+            if fi >= len(files) or files[fi]['name'] != want_name:
+                out.append(V(rec, 'junit:filtered-run:no-file-for-group', 'group %r (%d of its %d tests selected) should have produced %r; next captured file: %r (all: %r)' % (
+                    g['name'], len(sel), len(g['tests']), want_name, files[fi]['name'] if fi < len(files) else None, [f['name'] for f in files]), truth))
+                return out
+            counters['junit_files_judged_in_filtered_runs'] = counters.get('junit_files_judged_in_filtered_runs', 0) + 1
+        f = files[fi]
+        fi += 1
+        n_before = len(texts_so_far)
+        texts_group = [ptxt for t in sel for ptxt in t['prints']]
+        texts_so_far += texts_group
+        counters['junit_files_parsed'] = counters.get('junit_files_parsed', 0) + 1
+        if not g['name']:
+            counters['junit_files_of_a_group_with_empty_name'] = counters.get('junit_files_of_a_group_with_empty_name', 0) + 1
+        if f['name'] != want_name:
+            out.append(V(rec, 'junit:file-name', 'file name %r, expected %r' % (f['name'], want_name), truth))
+        if f['closes'] != 1 or f['writes_after_close']:
+            out.append(V(rec, 'junit:file-not-closed-once', 'closes=%d writes_after_close=%d' % (f['closes'], f['writes_after_close']), truth))
+        try:
+            tree = parse_xml(f['content'])
+        except xml.parsers.expat.ExpatError as e:
+            out.append(V(rec, 'junit:not-well-formed', '%s in file %r: %r' % (e, f['name'], f['content'][:600]), truth))
+            continue
+        if len(tree) != 1 or tree[0]['name'] != 'testsuite':
+            out.append(V(rec, 'junit:no-single-testsuite', repr([n['name'] for n in tree]), truth))
+            continue
+        suite = tree[0]
+        a = suite['attrs']
+        ntests = len(sel)
+        nfailed = sum(1 for t in sel if t['failures'])
+        if a.get('name') != g['name']:
+            out.append(V(rec, 'junit:suite-name', 'suite name %r, group %r' % (a.get('name'), g['name']), truth))
+        if a.get('tests') != str(ntests):
+            out.append(V(rec, 'junit:suite-tests-count', 'tests=%r, true %d' % (a.get('tests'), ntests), truth))
+        if a.get('failures') != str(nfailed):
+            out.append(V(rec, 'junit:suite-failures-count', 'failures=%r, true number of failed tests %d' % (a.get('failures'), nfailed), truth))
+        cases = [n for n in suite['children'] if n['name'] == 'testcase']
+        if len(cases) != ntests:
+            out.append(V(rec, 'junit:testcase-count', '%d testcase elements for %d tests' % (len(cases), ntests), truth))
+            continue
+        for t, cnode in zip(sel, cases):
+            ca = cnode['attrs']
+            counters['junit_testcases_checked'] = counters.get('junit_testcases_checked', 0) + 1
+            if ca.get('name') != t['name']:
+                out.append(V(rec, 'junit:testcase-name', 'name %r, test %r' % (ca.get('name'), t['name']), truth))
+            if ca.get('file') != t['file']:
+                out.append(V(rec, 'junit:testcase-file', 'file %r, true %r' % (ca.get('file'), t['file']), truth))
+            if ca.get('line') != str(t['line']):
+                out.append(V(rec, 'junit:testcase-line', 'line %r, true %r' % (ca.get('line'), t['line']), truth))
+            want_class = (pkg + '.' if pkg else '') + g['name']
+            if ca.get('classname') != want_class:
+                out.append(V(rec, 'junit:testcase-classname', 'classname %r, expected %r' % (ca.get('classname'), want_class), truth))
+            skipped = [n for n in cnode['children'] if n['name'] == 'skipped']
+            failure = [n for n in cnode['children'] if n['name'] == 'failure']
+            if bool(skipped) != bool(t['ignored']):
+                out.append(V(rec, 'junit:skipped-marker', 'skipped marker %s for a test that is %s' % ('present' if skipped else 'absent', 'ignored' if t['ignored'] else 'not ignored'), truth))
+            if bool(failure) != bool(t['failures']) or len(failure) > 1:
+                out.append(V(rec, 'junit:failure-element', '%d failure elements for a test with %d failures' % (len(failure), len(t['failures'])), truth))
+            elif failure:
+                msg = failure[0]['attrs'].get('message')
+                if any(fl['text'] is None for fl in t['failures']):
+                    # failure added by the parent of a separate-process run: its wording is not this property's business
+                    counters['junit_parent_side_failures_seen'] = counters.get('junit_parent_side_failures_seen', 0) + 1
+                else:
                     wants = ['%s:%d: %s' % (fl['file'], fl['line'], fl['text']) for fl in t['failures']]
                     if msg not in wants:
                         out.append(V(rec, 'junit:failure-message', 'message %r is none of the test\'s failures %r' % (msg, wants), truth))
-            # captured output: everything printed so far, or only this group's
-            so = [n for n in suite['children'] if n['name'] == 'system-out']
-            if len(so) != 1:
-                out.append(V(rec, 'junit:system-out-count', '%d system-out elements' % len(so), truth))
+        # captured output: everything printed so far, or only this group's
+        so = [n for n in suite['children'] if n['name'] == 'system-out']
+        if len(so) != 1:
+            out.append(V(rec, 'junit:system-out-count', '%d system-out elements' % len(so), truth))
+        else:
+            got = so[0]['text']
+            if truth['mode'] == 0:
+                # exact: the raw strings handed to print() in order
+                n_so_far = len(texts_so_far)
+                all_so_far = ''.join(printed_all[:n_so_far])
+                only_group = ''.join(printed_all[n_before:n_so_far])
+                if got != all_so_far and got != only_group:
+                    out.append(V(rec, 'junit:system-out-content', 'system-out %r is neither the output so far %r nor this group\'s %r' % (got, all_so_far, only_group), truth))
             else:
-                got = so[0]['text']
-                texts_so_far = []
-                texts_group = []
-                for rr in range(r + 1):
-                    for gj, g2 in enumerate(groups):
-                        if rr == r and gj > gi:
-                            break
-                        for t in g2['tests']:
-                            for ptxt in t['prints']:
-                                texts_so_far.append(ptxt)
-                                if rr == r and gj == gi:
-                                    texts_group.append(ptxt)
-                if truth['mode'] == 0:
-                    # exact: the raw strings handed to print() in order
-                    n_so_far = len(texts_so_far)
-                    n_before = n_so_far - len(texts_group)
-                    all_so_far = ''.join(printed_all[:n_so_far])
-                    only_group = ''.join(printed_all[n_before:n_so_far])
-                    if got != all_so_far and got != only_group:
-                        out.append(V(rec, 'junit:system-out-content', 'system-out %r is neither the output so far %r nor this group\'s %r' % (got, all_so_far, only_group), truth))
-                else:
-                    pos = 0
-                    for ptxt in texts_group:
-                        j = got.find(ptxt, pos) if rep == 1 else got.find(ptxt)
-                        if j < 0:
-                            out.append(V(rec, 'junit:system-out-content', 'printed text %r not found (in order) in system-out %r' % (ptxt, got), truth))
-                            break
-                        pos = j + len(ptxt)
+                pos = 0
+                for ptxt in texts_group:
+                    j = got.find(ptxt, pos) if rep == 1 else got.find(ptxt)
+                    if j < 0:
+                        out.append(V(rec, 'junit:system-out-content', 'printed text %r not found (in order) in system-out %r' % (ptxt, got), truth))
+                        break
+                    pos = j + len(ptxt)
+    if filtered:
+        extra = [f['name'] for f in files[fi:] if not is_report_without_testcases(f)]
+        if extra:
+            out.append(V(rec, 'junit:filtered-run:extra-file-with-testcases', 'files with test cases beyond those of the groups that ran: %r' % extra, truth))
     return out
 
 
@@ -219,6 +252,28 @@ def judge_teamcity(rec, counters):
         out.append(V(rec, 'teamcity:cannot-tokenize', err + ' ; stream=%r' % obs['stream'][:1500], truth))
         return out
     counters['teamcity_messages_decoded'] = counters.get('teamcity_messages_decoded', 0) + len(msgs)
+    # A suite whose name is the empty string and which is never finished is reported under a key of its own (the output object
+    # using the empty group name as its "no group open" marker), once per run; the missing finish is then supplied so that the
+    # rest of the run is still judged for everything else.
+    patched = []
+    open_empty = False
+    n_missing = 0
+    for name, attrs in msgs + [(None, None)]:
+        if open_empty and name in ('testSuiteStarted', None):
+            patched.append(('testSuiteFinished', {'name': ''}))
+            n_missing += 1
+            open_empty = False
+        if name == 'testSuiteStarted':
+            open_empty = attrs.get('name') == ''
+        elif name == 'testSuiteFinished':
+            open_empty = False
+        if name is not None:
+            patched.append((name, attrs))
+    if any(not g['name'] for g in truth['groups']):
+        counters['teamcity_runs_with_an_empty_group_name'] = counters.get('teamcity_runs_with_an_empty_group_name', 0) + 1
+    if n_missing:
+        out.append(V(rec, 'teamcity:suite-not-finished:empty-group-name', '%d suite(s) started with name=\'\' got no testSuiteFinished; stream=%r' % (n_missing, obs['stream'][:1200]), truth))
+        msgs = patched
     filtered = bool(truth.get('filtered'))
     # expected event sequence
     exp = []
@@ -304,6 +359,11 @@ def judge_teamcity(rec, counters):
         if name == 'testFailed':
             fl, t = extra
             counters['teamcity_failures_checked'] = counters.get('teamcity_failures_checked', 0) + 1
+            if fl['text'] is None:
+                # failure added by the parent of a separate-process run: it must name the open test (pairing automaton and
+                # sequence comparison above); its wording and location are not this property's business
+                counters['teamcity_parent_side_failures_checked'] = counters.get('teamcity_parent_side_failures_checked', 0) + 1
+                continue
             msg = attrs.get('message', '')
             det = attrs.get('details')
             loc = '%s:%d' % (fl['file'], fl['line'])
